@@ -224,8 +224,9 @@ def callee_names(t):
 
 
 class Program:
-    def __init__(self, factdir):
+    def __init__(self, factdir, inline=True):
         self.crates = {}
+        self.inlined = []
         self.bodies = {}
         self.adts = {}
         self.impls = []
@@ -243,7 +244,16 @@ class Program:
             if tag in self.crates and tag == kr:
                 tag = kr + "[2]"
             self.crates[tag] = d
+            if inline:
+                # helper transparency (rules/inline.py): new local helper functions are spliced into their callers
+                import inline as _inl
+                uniq = {}
+                for bj in d["bodies"]:
+                    uniq.setdefault(bj["id"], bj)
+                self.inlined += _inl.inline_program({tag: uniq})
             for bj in d["bodies"]:
+                if bj.get("inlined_away"):
+                    continue
                 b = Body(bj, tag)
                 key = b.id if "[bin]" not in tag else "[bin]" + b.id
                 if key in self.bodies:
